@@ -475,6 +475,14 @@ def check_ray_function(index, rep, f: Func) -> Optional[ast.For]:
 
 
 def run(index: RepoIndex, rep) -> None:
+    rep.rule('C06.R8', 'each name of an observation / visibility function denotes its own '
+             'function: closures made in a loop (aliases, wrappers) bind the loop variable at '
+             'definition time', floor=1)
+    from .wiring import late_binding_closures
+    late_binding_closures(index, rep, 'C06.R8', (
+        'gym_gridverse/envs/observation_functions.py',
+        'gym_gridverse/envs/visibility_functions.py',
+        'gym_gridverse/utils/raytracing.py', 'gym_gridverse/utils/registry.py'))
     rep.rule('C06.R1', 'visibility functions consult cells only through .blocks_vision', floor=4)
     rep.rule('C06.R2', 'opacity is read only after the cell is revealed', floor=6)
     rep.rule('C06.R3', 'positive polarity: blocks_vision only negated; neighbour offsets in '
